@@ -93,7 +93,7 @@ for g in GROUPS:
 # --------------------------------------------------------------------------
 # Exp / Log
 # --------------------------------------------------------------------------
-REG = ('generic', 'zero', 'tiny', 'subeps', 'small', 'large')
+REG = ('generic', 'zero', 'tiny', 'subeps', 'sqrteps', 'micro', 'small', 'large')
 
 
 def alg_input(env, g, name='x'):
